@@ -434,6 +434,10 @@ func (r *Runner) step(i int) {
 		t := n.Exec(req, true)
 		r.account(n, t)
 		r.invariants(i, n, s, t, false)
+		if s.IsScenario() {
+			// the hand-written expectation holds on every engine, not only on the primary's
+			r.checkScenarioOn(i, s, t, n.Cfg.Name)
+		}
 		r.compare(i, s, prim, t0, n, t)
 	}
 
@@ -1227,6 +1231,10 @@ func (r *Runner) probes(n *Node) {
 // to the property the scenario is about (attachments: C49, resource movement: C02); for the others to the pseudo-property "SCN",
 // which no check claims (it shows up under foreign_violations in the evidence): those scenarios are judged by replica agreement.
 func (r *Runner) checkScenario(i int, s *Step, t *Transcript) {
+	r.checkScenarioOn(i, s, t, r.Nodes[0].Cfg.Name)
+}
+
+func (r *Runner) checkScenarioOn(i int, s *Step, t *Transcript, name string) {
 	prop := "SCN"
 	switch {
 	case strings.HasPrefix(s.Name, "scn:attachments"):
@@ -1237,7 +1245,6 @@ func (r *Runner) checkScenario(i int, s *Step, t *Transcript) {
 		prop = "C02"
 	}
 	r.Stats.Probes["scenario_steps"]++
-	name := r.Nodes[0].Cfg.Name
 	if s.Fails != "" {
 		if t.Class == "ok" {
 			r.violate(prop, "scenario.outcome", i, name, "scn-unexpected-success", "%s must fail with %s but succeeded (result %s)", s.Name, s.Fails, t.Result)
